@@ -7,8 +7,9 @@
 (* trace.ndjson holds many traces back to back:                            *)
 (*   {"ev":"begin","id":n,"who":"sonic|std","s":[byte classes],"endk":..}  *)
 (*   {"ev":"read","n":k,"e":"none|EOF|FAULT"}      one Read of the Reader  *)
-(*   {"ev":"val","eq":bool}     Decode returned a value (eq: equal to the  *)
-(*                              value the driver built the stream from)    *)
+(*   {"ev":"val","eq":bool,"i":n}  Decode returned its n-th value (eq: equal *)
+(*                              to the value the driver built the stream   *)
+(*                              from at that place)                        *)
 (*   {"ev":"term","t":"EOF|ERR|FAULT"}   Decode returned an error          *)
 (*   {"ev":"noop"}              Decode returned nil and stored nothing     *)
 (*                                                                         *)
@@ -63,7 +64,7 @@ Read == /\ Ev.ev = "read"
         /\ UNCHANGED <<tid, bl, endk, k, tstate>>
 
 Val == /\ Ev.ev = "val"
-       /\ IF /\ tstate = "run" /\ Ev.eq
+       /\ IF /\ tstate = "run" /\ Ev.eq /\ Ev.i = k + 1
              /\ (k + 1 <= Len(Cur.vals) \/ (k + 1 = Len(Cur.vals) + 1 /\ Cur.opt # <<>>))
           THEN UNCHANGED rej ELSE Reject
        /\ k' = k + 1
